@@ -309,9 +309,11 @@ def gen_cases(rec, rng, tier):
     for _ in range(40 if thorough else 14):
         RP = pdag.random_pda(rng, rng.randint(1, 4), rng.randint(1, 2), rng.randint(0, 3), rng.randint(1, 8), p_eps=rng.choice([0.3, 0.5, 0.7]))
         yield {'kind': 'pda', 'cls': 'random_pda', 'ref': RP, 'n': 4 if len(RP[1]) == 2 else 5, 'limit': rng.choice([5, 12, 30, 50]), 'eps': rng.choice(['', '_'])}
-    for _ in range(40 if thorough else 12):
+    for _ in range(80 if thorough else 25):
         RG = cfgg.random_cnf(rng, rng.randint(1, 5), rng.randint(0, 7), nt=rng.randint(1, 2))
         yield {'kind': 'cfg', 'cls': 'random_cnf', 'ref': RG, 'n': 5 if len(RG[1]) == 2 else 7, 'notebook': True}
+        RG = cfgg.redundant_cnf(rng)
+        yield {'kind': 'cfg', 'cls': 'redundant_cnf', 'ref': RG, 'n': 6 if len(RG[1]) == 2 else 8, 'notebook': rng.random() < 0.3}
     if rec.shard % 8 == 3:
         from vt.props.c07 import shipped
         for (name, RG) in shipped():
